@@ -9,6 +9,21 @@ diamond with default / str / int discriminator, nullable, defaults} plus naming 
 fk_name, index names, entity and attribute names of length 27..70 that differ only in their last
 character, names that differ only in case, names that clash with names Pony derives).
 
+Attribute x composite keys / indexes over the same column(s) (space.fam_keymix): a target attribute t out of {plain,
+unique, unique Optional str, index=True, index=<name>, unique+index=<name>; reference: Required / Optional many-to-one,
+index=True / <name> / False, unique, one-to-one} (references to a single- and to a two-column primary key) x a
+composite {composite_key, composite_index, PrimaryKey, key+index in opposite orders} that contains t in {leading,
+trailing, middle} position x declared in {the entity of t, a subclass together with an attribute of the subclass
+(composite_key(Base.t, x)), a subclass over inherited attributes only} x holder primary key {auto, composite}
+(quick: leading / trailing, key / index / PrimaryKey, auto primary key).
+Oracle on index COLUMN LISTS (all families, entity tables and link tables): every foreign key not declared
+index=False is the leading part of an index, a unique constraint or the primary key of its table (fk-index-missing:
+also for both foreign keys of every many-to-many link table); every unique constraint is over exactly the columns of
+a unique attribute, a one-to-one reference, a composite_key or the primary key (unique-unexplained); every non-unique
+index is over exactly the columns of an attribute with index=, a reference, a composite_index or one side of a link
+table (index-unexplained); no two indexes over the same column list (index-declared-twice); a unique attribute keeps
+its unique constraint whatever other index contains its column (unique-missing).
+
 Options of a relationship x declaring side (space.sided): every option that either attribute of a
 relationship may carry - many-to-many: table, schema-qualified table, table equal to an entity's
 table, table equal to another m2m's table, column(s) (+reverse_column(s)), fk_name (+reverse_fk_name),
@@ -329,7 +344,7 @@ def compare(spec, md, obs, dialect, P):
         # every foreign key (unless declared index=False) is the leading part of an index, a unique constraint or the primary key
         for e, a, cols in fk_expect:
             if a['opts'].get('index') is False: continue
-            if not _led(ot, cols): P.add('fk-index-missing', attr_shape(spec, e, a), 'no index of %r starts with the foreign key columns %r' % (t, cols))
+            if not _led(ot, cols): P.add('fk-index-missing', 'to-one' + attr_shape(spec, e, a).split(')', 1)[1], 'no index of %r starts with the foreign key columns %r' % (t, cols))
         # every unique constraint / index is over exactly the columns of a declaration
         _unexplained(P, t, ot, want_pk, may_unique, may_index, 'entity-table')
     # ---------------- many-to-many tables
